@@ -1,6 +1,22 @@
 (* Extraction of the executable model to OCaml.  Only the two standard
    extraction libraries are used; no hand-written Extract Constant. *)
 From Coq Require Import ExtrOcamlBasic ExtrOcamlZBigInt.
-From GoIpa Require Import Model.Parallel.
+From GoIpa Require Import Model.Parallel Model.Bytes Model.Zq Model.Sha256 Model.Alg
+  Model.Transcript Model.Edwards Model.FpSqrt Model.Banderwagon Model.Codec Model.Bary
+  Model.IPA Model.Multiproof Model.Serde Model.Concrete.
 
-Extraction "model.ml" execute_ranges.
+Extraction "model.ml"
+  execute_ranges
+  sha256 le_val be_val le_enc be_enc
+  fp fr zq_add zq_sub zq_mul zq_neg zq_inv zq_pow zq_legendre zq_lex_largest zq_eqb
+  fr_bytes fr_bytes_le fp_bytes_le fr_set_bytes fr_set_bytes_le fr_set_bytes_le_canonical
+  fr_set_bytes_le_prefix
+  sqrt_precomp get_point_from_x chain_exp_candidate chain_exp_root
+  bw_generator bw_identity bw_add bw_double bw_neg bw_sub bw_add_mixed bw_smul bw_affine
+  bw_bytes bw_bytes_uncompressed bw_equal bw_set_bytes bw_set_bytes_uncompressed
+  bw_map_to_scalar bw_normalize bw_is_on_curve bw_elements_to_bytes
+  bw_batch_to_bytes_uncompressed bw_batch_map_to_scalar subgroup_check
+  gen_points c_weights c_config c_commit c_transcript_run c_transcript_spec_run
+  c_ipa_create c_ipa_check c_mp_create c_mp_check c_challenge t_new
+  c_divide_on_domain c_bary_coeffs c_compute_b c_batch_invert_fr c_batch_invert_fp c_inner c_msm
+  mp_read ipa_read mp_write_chunks ipa_write_chunks write_all mkR.
